@@ -7,6 +7,7 @@ import (
 	"fmt"
 	"html"
 	"net/textproto"
+	"strings"
 
 	"github.com/valyala/fasthttp"
 )
@@ -15,7 +16,7 @@ import (
 func init() {
 	Register(&Prop{
 		ID: "C32",
-		Rule: "byte: all 256 byte values through every table user (exhaustive); key: header names over a token-biased alphabet " +
+		Rule: "byte: all 256 byte values through every table user (exhaustive); key: header names over a token-biased alphabet and every registered HTTP field name in four letter cases " +
 			"(non-trivial = token containing a letter); html: strings biased to the five escaped characters (non-trivial = contains one); distinct = distinct input",
 		Exhaustive: func(string) bool { return false },
 		Parallel:   false,
@@ -132,6 +133,31 @@ func init() {
 					d = 1
 				}
 				emit("key", k, []byte{d})
+			}
+			// the registered field names (IANA HTTP field name registry, permanent entries in common use, plus de-facto ones), each in
+			// its registered spelling, lower case, upper case and with alternating case: a canonicaliser that special-cases a name shows here
+			registered := []string{"A-IM", "Accept", "Accept-Charset", "Accept-Encoding", "Accept-Language", "Accept-Patch", "Accept-Post", "Accept-Ranges", "Access-Control-Allow-Credentials",
+				"Access-Control-Allow-Headers", "Access-Control-Allow-Methods", "Access-Control-Allow-Origin", "Access-Control-Expose-Headers", "Access-Control-Max-Age", "Access-Control-Request-Headers",
+				"Access-Control-Request-Method", "Age", "Allow", "ALPN", "Alt-Svc", "Alt-Used", "Authentication-Info", "Authorization", "Cache-Control", "CDN-Cache-Control", "Clear-Site-Data", "Connection",
+				"Content-Disposition", "Content-Encoding", "Content-Language", "Content-Length", "Content-Location", "Content-MD5", "Content-Range", "Content-Security-Policy", "Content-Security-Policy-Report-Only",
+				"Content-Type", "Cookie", "Cross-Origin-Embedder-Policy", "Cross-Origin-Opener-Policy", "Cross-Origin-Resource-Policy", "DASL", "Date", "DAV", "Depth", "Destination", "DNT", "DPoP", "Early-Data",
+				"ETag", "Expect", "Expect-CT", "Expires", "Forwarded", "From", "Host", "HTTP2-Settings", "If", "If-Match", "If-Modified-Since", "If-None-Match", "If-Range", "If-Unmodified-Since", "IM", "Keep-Alive",
+				"Last-Event-ID", "Last-Modified", "Link", "Location", "Lock-Token", "Max-Forwards", "MIME-Version", "NEL", "OData-Version", "Origin", "Overwrite", "P3P", "Permissions-Policy", "Pragma", "Prefer",
+				"Proxy-Authenticate", "Proxy-Authorization", "Proxy-Connection", "Range", "Referer", "Referrer-Policy", "Refresh", "Retry-After", "Sec-CH-UA", "Sec-Fetch-Dest", "Sec-GPC", "Sec-WebSocket-Accept",
+				"Sec-WebSocket-Key", "Sec-WebSocket-Protocol", "Sec-WebSocket-Version", "Server", "Server-Timing", "Set-Cookie", "SLUG", "SOAPAction", "Strict-Transport-Security", "TCN", "TE", "Timeout", "Trailer",
+				"Transfer-Encoding", "Upgrade", "Upgrade-Insecure-Requests", "User-Agent", "Vary", "Via", "Want-Digest", "Warning", "WWW-Authenticate", "X-Content-Type-Options", "X-DNS-Prefetch-Control",
+				"X-Forwarded-For", "X-Forwarded-Host", "X-Forwarded-Proto", "X-Frame-Options", "X-Request-ID", "X-Requested-With", "X-UA-Compatible", "X-XSS-Protection", "X-Real-IP", "X-CSRF-Token"}
+			for _, name := range registered {
+				alt := []byte(strings.ToLower(name))
+				for i := range alt {
+					if i%2 == 0 && alt[i] >= 'a' && alt[i] <= 'z' {
+						alt[i] -= 32
+					}
+				}
+				for _, k := range [][]byte{[]byte(name), []byte(strings.ToLower(name)), []byte(strings.ToUpper(name)), alt} {
+					emit("key", k, []byte{0})
+					emit("key", k, []byte{1})
+				}
 			}
 			htmlAlpha := []byte("ab &<>\"'\x00\xff;#34")
 			for i := 0; i < n/2; i++ {
